@@ -17,6 +17,7 @@ import (
 	"strings"
 	"testing"
 	"testing/synctest"
+	"time"
 
 	"github.com/modelcontextprotocol/go-sdk/internal/verifx"
 	"github.com/modelcontextprotocol/go-sdk/jsonrpc"
@@ -507,6 +508,162 @@ func c17Filtered(cases *verifx.Cases) {
 	}
 }
 
+// c17Configured: what gets listed does not depend on how the server is configured otherwise.  Every
+// capability configuration a server may be given (none, list_changed switched off or on for every kind,
+// the legacy Has* switches, resources with subscription support) x items registered before the session
+// exists, one more added and one removed while it exists: manual paging lists exactly what is registered,
+// the client iterator the same.
+func c17Configured(t *testing.T, cases *verifx.Cases) {
+	type cfg struct {
+		name string
+		mk   func() *ServerOptions
+	}
+	subH := func(context.Context, *SubscribeRequest) error { return nil }
+	unsubH := func(context.Context, *UnsubscribeRequest) error { return nil }
+	cfgs := []cfg{
+		{"default", func() *ServerOptions { return &ServerOptions{} }},
+		{"list_changed off", func() *ServerOptions {
+			return &ServerOptions{Capabilities: &ServerCapabilities{Tools: &ToolCapabilities{}, Prompts: &PromptCapabilities{}, Resources: &ResourceCapabilities{}}}
+		}},
+		{"list_changed on", func() *ServerOptions {
+			return &ServerOptions{Capabilities: &ServerCapabilities{Tools: &ToolCapabilities{ListChanged: true}, Prompts: &PromptCapabilities{ListChanged: true}, Resources: &ResourceCapabilities{ListChanged: true}}}
+		}},
+		{"empty capabilities", func() *ServerOptions { return &ServerOptions{Capabilities: &ServerCapabilities{}} }},
+		{"logging only", func() *ServerOptions {
+			return &ServerOptions{Capabilities: &ServerCapabilities{Logging: &LoggingCapabilities{}}}
+		}},
+		{"legacy Has* switches", func() *ServerOptions { return &ServerOptions{HasTools: true, HasPrompts: true, HasResources: true} }},
+		{"resource subscriptions", func() *ServerOptions {
+			return &ServerOptions{SubscribeHandler: subH, UnsubscribeHandler: unsubH, Capabilities: &ServerCapabilities{Resources: &ResourceCapabilities{Subscribe: true}}}
+		}},
+	}
+	for _, kind := range c17Kinds() {
+		for _, c := range cfgs {
+			for _, pageSize := range []int{0, 2} {
+				for _, version := range []string{"2025-06-18", "2026-07-28"} {
+					for initial := 0; initial < 32; initial += 3 {
+						idx, mine := cases.Next()
+						if !mine {
+							continue
+						}
+						var obs, sig, msg string
+						func() {
+							defer func() {
+								if r := recover(); r != nil && sig == "" {
+									sig, msg = "c17 configured panic-or-leak", fmt.Sprint(r)
+								}
+							}()
+							synctest.Test(t, func(t *testing.T) {
+								obs, sig, msg = c17ConfiguredCase(kind, c.name, c.mk(), pageSize, version, initial)
+							})
+						}()
+						if sig != "" {
+							cases.Violate(idx, sig, msg, 3)
+							continue
+						}
+						cases.Record(idx, obs, 3, func() string {
+							return fmt.Sprintf("%s %s page size %d %s initial=%05b", kind.name, c.name, pageSize, version, initial)
+						})
+					}
+				}
+			}
+		}
+	}
+}
+
+func c17ConfiguredCase(kind c17Kind, cname string, opts *ServerOptions, pageSize int, version string, initial int) (obs, sig, msg string) {
+	ctx := context.Background()
+	{
+		{
+			{
+				{
+					{
+
+						opts.PageSize, opts.Logger = pageSize, quietLogger
+						s := NewServer(&Implementation{Name: "srv", Version: "1"}, opts)
+						want := map[string]bool{}
+						for i, n := range c17Names {
+							if initial&(1<<i) != 0 {
+								kind.add(s, n, 0)
+								want[kind.id(n)] = true
+							}
+						}
+						desc := fmt.Sprintf("%s, server configured with %s, page size %d, protocol %s, initially %v", kind.name, cname, pageSize, version, want)
+						ct, st := NewInMemoryTransports()
+						ss, err := s.Connect(ctx, st, nil)
+						if err != nil {
+							return "", "c17 session", err.Error()
+						}
+						cs, err := NewClient(&Implementation{Name: "cli", Version: "1"}, &ClientOptions{Logger: quietLogger}).Connect(ctx, ct, &ClientSessionOptions{ProtocolVersion: version})
+						if err != nil {
+							return "", "c17 session", err.Error() + " [" + desc + "]"
+						}
+						bad := ""
+						listAll := func(when string) {
+							var manual []string
+							cursor, pages := "", 0
+							for bad == "" {
+								ids, next, err := kind.list(ctx, cs, cursor)
+								pages++
+								if err != nil {
+									bad = fmt.Sprintf("%s: page %d failed: %v", when, pages, err)
+									return
+								}
+								manual = append(manual, ids...)
+								if next == "" || pages > 12 {
+									break
+								}
+								cursor = next
+							}
+							var reg []string
+							for id := range want {
+								reg = append(reg, id)
+							}
+							slices.Sort(reg)
+							got := slices.Clone(manual)
+							slices.Sort(got)
+							if !slices.Equal(got, reg) {
+								bad = fmt.Sprintf("%s: listed %v, registered %v", when, manual, reg)
+								return
+							}
+							it, iterErr := kind.iter(ctx, cs)
+							if iterErr != nil || !slices.Equal(it, manual) {
+								bad = fmt.Sprintf("%s: the iterator yielded %v (%v), manual paging %v", when, it, iterErr, manual)
+							}
+						}
+						listAll("registered before the session")
+						// one more while the session exists (the first name that is not registered), one less
+						for i, n := range c17Names {
+							if initial&(1<<i) == 0 {
+								kind.add(s, n, 0)
+								want[kind.id(n)] = true
+								break
+							}
+						}
+						time.Sleep(time.Second) // (virtual: past the debounce timer)
+						listAll("after one more was added")
+						for i, n := range c17Names {
+							if initial&(1<<i) != 0 {
+								kind.remove(s, n)
+								delete(want, kind.id(n))
+								break
+							}
+						}
+						time.Sleep(time.Second)
+						listAll("after one was removed")
+						cs.Close()
+						ss.Wait()
+						if bad != "" {
+							return "", "c17 configured wrong-set " + cname, bad + " [" + desc + "]"
+						}
+						return fmt.Sprintf("%s %s ok", kind.name, cname), "", ""
+					}
+				}
+			}
+		}
+	}
+}
+
 func TestVerifC17(t *testing.T) {
 	env := verifx.LoadEnv("C17")
 	res := env.NewResult()
@@ -520,6 +677,7 @@ func TestVerifC17(t *testing.T) {
 	}})
 	c17BadCursors(env, res)
 	c17Filtered(env.NewCases(res, "filtered-listings"))
+	c17Configured(t, env.NewCases(res, "server-configurations"))
 	// a client that caches list pages (2026-07-28, positive TTL): a traversal begun after it has handled
 	// the list-changed notification yields every registered item exactly once (the scenario is C18's)
 	cached := env.NewCases(res, "cached-pages-after-list-changed")
